@@ -3,7 +3,7 @@ CONSTANTS
   Req <- R3
   Conn <- C5
   Origin <- OAB
-  Cfgs <- CfgsQ1
+  Cfgs <- CfgsQ2
   None <- NoneC
   NoExpiry <- NoExpC
   NoTimeout <- NoTOC
